@@ -16,7 +16,7 @@ use saito_core::core::consensus::golden_ticket::GoldenTicket;
 use saito_core::core::consensus::hop::Hop;
 use saito_core::core::consensus::peers::peer_service::PeerService;
 use saito_core::core::consensus::slip::Slip;
-use saito_core::core::consensus::transaction::Transaction;
+use saito_core::core::consensus::transaction::{Transaction, TransactionType};
 use saito_core::core::consensus::wallet::Wallet;
 use saito_core::core::msg::api_message::ApiMessage;
 use saito_core::core::msg::block_request::BlockchainRequest;
@@ -34,19 +34,56 @@ mod codec_gen;
 use codec_gen::*;
 
 // ---------------------------------------------------------------- counting allocator
+// Every request is counted.  A request of HUGE bytes or more (e.g. a
+// Vec::with_capacity(count) on a count read from the wire: 2^32-1 transactions are
+// 1 TB) is served by an untouched, unreserved anonymous mapping instead of malloc,
+// so that it neither aborts the process (handle_alloc_error) nor costs memory: the
+// decoder call returns normally and the allocation oracle reports the input.
 struct Counting;
 static ALLOCATED: AtomicUsize = AtomicUsize::new(0);
+const HUGE: usize = 1 << 28;
+extern "C" {
+    fn mmap(addr: *mut u8, len: usize, prot: i32, flags: i32, fd: i32, off: i64) -> *mut u8;
+    fn munmap(addr: *mut u8, len: usize) -> i32;
+}
+const PROT_READ_WRITE: i32 = 1 | 2;
+const MAP_PRIVATE_ANON_NORESERVE: i32 = 0x02 | 0x20 | 0x4000;
+unsafe fn huge_alloc(size: usize) -> *mut u8 {
+    let p = mmap(std::ptr::null_mut(), size, PROT_READ_WRITE, MAP_PRIVATE_ANON_NORESERVE, -1, 0);
+    if p as isize == -1 {
+        std::ptr::null_mut()
+    } else {
+        p
+    }
+}
 unsafe impl GlobalAlloc for Counting {
     unsafe fn alloc(&self, l: Layout) -> *mut u8 {
         ALLOCATED.fetch_add(l.size(), Ordering::Relaxed);
+        if l.size() >= HUGE && l.align() <= 4096 {
+            return huge_alloc(l.size());
+        }
         System.alloc(l)
     }
     unsafe fn dealloc(&self, p: *mut u8, l: Layout) {
+        if l.size() >= HUGE && l.align() <= 4096 {
+            munmap(p, l.size());
+            return;
+        }
         System.dealloc(p, l)
     }
     unsafe fn realloc(&self, p: *mut u8, l: Layout, new_size: usize) -> *mut u8 {
         if new_size > l.size() {
             ALLOCATED.fetch_add(new_size - l.size(), Ordering::Relaxed);
+        }
+        if l.size() >= HUGE || new_size >= HUGE {
+            // move between the two regimes by hand
+            let nl = Layout::from_size_align_unchecked(new_size, l.align());
+            let q = if new_size >= HUGE && l.align() <= 4096 { huge_alloc(new_size) } else { System.alloc(nl) };
+            if !q.is_null() {
+                std::ptr::copy_nonoverlapping(p, q, l.size().min(new_size));
+                self.dealloc(p, l);
+            }
+            return q;
         }
         System.realloc(p, l, new_size)
     }
@@ -95,20 +132,48 @@ fn fmt_name(f: u64) -> &'static str {
     }
 }
 
+/// what the mempool and block validation do with a decoded GoldenTicket-type
+/// transaction: its payload goes to GoldenTicket::deserialize_from_net (assert len == 97)
+fn ticket_of(t: &Transaction) {
+    if let TransactionType::GoldenTicket = t.transaction_type {
+        let gt = GoldenTicket::deserialize_from_net(&t.data);
+        assert_eq!(gt.serialize_for_net(), t.data, "golden ticket payload does not re-encode");
+    }
+}
+
 /// the real decoder followed by the real encoder on the decoded value
 fn real_decode(fmt: u64, bytes: &[u8]) -> Result<Vec<u8>, ()> {
     let v = bytes.to_vec();
     match fmt {
         F_SLIP => Slip::deserialize_from_net(&v).map(|s| s.serialize_for_net()).map_err(|_| ()),
         F_HOP => Hop::deserialize_from_net(&v).map(|s| s.serialize_for_net()).map_err(|_| ()),
-        F_TX => Transaction::deserialize_from_net(&v).map(|s| s.serialize_for_net()).map_err(|_| ()),
-        F_BLOCK => Block::deserialize_from_net(&v).map(|s| s.serialize_for_net(BlockType::Full)).map_err(|_| ()),
-        F_MESSAGE => Message::deserialize(v).map(|s| s.serialize()).map_err(|_| ()),
+        F_TX => Transaction::deserialize_from_net(&v)
+            .map(|s| {
+                ticket_of(&s);
+                s.serialize_for_net()
+            })
+            .map_err(|_| ()),
+        F_BLOCK => Block::deserialize_from_net(&v)
+            .map(|s| {
+                s.transactions.iter().for_each(ticket_of);
+                s.serialize_for_net(BlockType::Full)
+            })
+            .map_err(|_| ()),
+        F_MESSAGE => Message::deserialize(v)
+            .map(|s| {
+                match &s {
+                    Message::Transaction(t) => ticket_of(t),
+                    Message::Block(b) => b.transactions.iter().for_each(ticket_of),
+                    _ => {}
+                }
+                s.serialize()
+            })
+            .map_err(|_| ()),
         F_HS_CHALLENGE => HandshakeChallenge::deserialize(&v).map(|s| s.serialize()).map_err(|_| ()),
         F_HS_RESPONSE => HandshakeResponse::deserialize(&v).map(|s| s.serialize()).map_err(|_| ()),
         F_BC_REQUEST => BlockchainRequest::deserialize(&v).map(|s| s.serialize()).map_err(|_| ()),
-        F_GHOST => Ok(GhostChainSync::deserialize(v).serialize()),
-        F_API => Ok(ApiMessage::deserialize(&v).serialize()),
+        F_GHOST => GhostChainSync::deserialize_checked(v).map(|s| s.serialize()).map_err(|_| ()),
+        F_API => ApiMessage::deserialize(&v).map(|s| s.serialize()).map_err(|_| ()),
         F_SERVICES => PeerService::deserialize_services(v).map(|s| PeerService::serialize_services(&s)).map_err(|_| ()),
         F_VERSION => Version::deserialize(&v).map(|s| s.serialize()).map_err(|_| ()),
         F_GT => Ok(GoldenTicket::deserialize_from_net(&v).serialize_for_net()),
@@ -147,29 +212,12 @@ fn be32(b: &[u8], off: usize) -> Option<u64> {
     }
 }
 
-/// the listed known classes (must agree with known_c10_* of coq/model/Codec.v)
+/// the listed known classes (must agree with known_c10_wallet of coq/model/Codec.v).
+/// The transaction / ghost chain / api message / golden ticket classes were repaired in
+/// /repo (34b1724, 8fc45ed, 144e342, eeb4ec7): a panic there is an oracle failure again.
 fn known_class(fmt: u64, b: &[u8]) -> Option<&'static str> {
-    let tx_known = |b: &[u8]| -> bool {
-        if b.len() < 93 {
-            return false;
-        }
-        let declared = 93 + (be32(b, 0).unwrap() + be32(b, 4).unwrap()) * 59 + be32(b, 8).unwrap() + be32(b, 12).unwrap() * 130;
-        (b.len() as u64) < declared
-    };
-    let ghost_known = |b: &[u8]| -> bool {
-        match be32(b, 32) {
-            Some(c) => (b.len() as u64) < 36 + 82 * c,
-            None => true,
-        }
-    };
     match fmt {
-        F_TX if tx_known(b) => Some("tx-buffer-shorter-than-declared"),
-        F_GHOST if ghost_known(b) => Some("ghost-chain-sync-short"),
-        F_API if b.len() < 4 => Some("api-message-short"),
-        F_GT if b.len() != 97 => Some("golden-ticket-len-not-97"),
         F_WALLET if b.len() < 65 => Some("wallet-disk-short"),
-        F_MESSAGE if b.first() == Some(&4) && tx_known(&b[1..]) => Some("msg-tx-buffer-shorter-than-declared"),
-        F_MESSAGE if b.first() == Some(&10) && ghost_known(&b[1..]) => Some("msg-ghost-chain-sync-short"),
         _ => None,
     }
 }
@@ -462,7 +510,14 @@ fn main() {
     let all = bases(&mut rng, thorough);
 
     // 1. every truncation of every valid encoding
+    // (GoldenTicket::deserialize_from_net is no wire decoder any more: it keeps its
+    // assert as an internal invariant and is exercised with 97-byte inputs only, and
+    // through the transaction / block / message decoders on every payload)
     for (fmt, bytes, what) in all.iter() {
+        if *fmt == F_GT {
+            ctx.one("precondition-input", F_GT, bytes, what);
+            continue;
+        }
         ctx.truncations(*fmt, bytes, what);
     }
     // 2. every length / count / tag field set to boundary values
@@ -483,10 +538,12 @@ fn main() {
     }
     // 3. appended garbage and single byte flips
     for (fmt, bytes, what) in all.iter() {
-        let mut m = bytes.clone();
-        let extra = 1 + rng.below(40) as usize;
-        m.extend(rvec(&mut rng, extra));
-        ctx.one("trailing-bytes", *fmt, &m, what);
+        if *fmt != F_GT {
+            let mut m = bytes.clone();
+            let extra = 1 + rng.below(40) as usize;
+            m.extend(rvec(&mut rng, extra));
+            ctx.one("trailing-bytes", *fmt, &m, what);
+        }
         let flips = if thorough { 200 } else { 16 };
         for _ in 0..flips {
             if bytes.is_empty() {
@@ -502,6 +559,15 @@ fn main() {
     let nrand = if thorough { 1800 } else { 160 };
     for fmt in 1..=14u64 {
         for k in 0..nrand {
+            if fmt == F_GT {
+                // precondition of the function: exactly 97 bytes
+                let b = rvec(&mut rng, 97);
+                ctx.one("random", fmt, &b, "random 97 bytes");
+                if k >= 10 {
+                    break;
+                }
+                continue;
+            }
             let len = match k % 4 {
                 0 => rng.below(8),
                 1 => rng.below(100),
@@ -542,8 +608,18 @@ fn main() {
         let mut big = g.clone();
         put(&mut big, 32, 4, u32::MAX as u64);
         ctx.one("named", F_GHOST, &big, "chain-sync message with count 2^32-1");
-        ctx.one("named", F_GT, &[0u8; 96], "golden ticket of 96 bytes");
-        ctx.one("named", F_GT, &[0u8; 98], "golden ticket of 98 bytes");
+        // golden tickets reach GoldenTicket::deserialize_from_net only as payload of a decoded transaction
+        for n in [0usize, 96, 97, 98] {
+            let mut gt_tx = gen_tx(&mut rng, 1, 1, 0, 0, 2);
+            gt_tx.data = rvec(&mut rng, n);
+            let b = gt_tx.serialize_for_net();
+            ctx.one("named", F_TX, &b, &format!("GoldenTicket-type transaction with a {}-byte payload", n));
+            let mut m = vec![4u8];
+            m.extend_from_slice(&b);
+            ctx.one("named", F_MESSAGE, &m, &format!("Transaction message, GoldenTicket type, {}-byte payload", n));
+            let blk = gen_block(&mut rng, vec![gt_tx]).serialize_for_net(BlockType::Full);
+            ctx.one("named", F_BLOCK, &blk, &format!("block carrying a GoldenTicket-type transaction with a {}-byte payload", n));
+        }
         ctx.one("named", F_WALLET, &[1u8; 64], "wallet file of 64 bytes");
         ctx.one("named", F_API, &[1u8; 3], "api message of 3 bytes");
     }
